@@ -267,7 +267,9 @@ Fixpoint render_members (ms : list (N * value)) (off : N) (c : choices) : list (
   | [] => ([], [], c)
   | (n, v) :: ms' =>
     let '(b, c1) := rv v c in
-    let '(s, c2) := sepc true c1 in
+    (* after the LAST member: white space / a comment, or nothing - the decoded data then end
+       with the last byte of the member's last token (`12 0 R`, `42`, `/Name`, `true`, ...) *)
+    let '(s, c2) := sepc (match ms' with [] => false | _ :: _ => true end) c1 in
     let '(idx, r, c3) := render_members ms' (off + len b + len s) c2 in
     ((n, off) :: idx, b ++ s ++ r, c3)
   end.
